@@ -296,12 +296,30 @@ pub fn drive_dir(seed: u64, tier: &str, stim: Option<&str>, zero: &str, out: &mu
     }
     // a directory beyond 65536 entries: the lossless clause only (the byte-exact clause at this size is thorough-tier);
     // "same" is literal equality of the parsed list with the input list
-    {
-        let n = 70_000u64;
-        let e: Vec<Entry> = (0..n).map(|i| Entry { tile_id: 9 + i + (i / 1000), run_length: 1, length: 64, offset: 64 * i }).collect();
+    // ... once with narrow fields (about 4 bytes an entry) and once with wide ones (ID gaps, run lengths and lengths
+    // near 2^32, offsets near 2^62: about 25 bytes an entry, 2.5 MB uncompressed); brotli at quality 11 needs a minute
+    // for the wide one and is left to the thorough tier
+    for wide in [false, true] {
+        let n = if wide { 100_000u64 } else { 70_000u64 };
+        let e: Vec<Entry> = if wide {
+            let mut id = 0u64;
+            (0..n)
+                .map(|i| {
+                    let run = 0xF000_0000u32 + (rng.next() % 0x0FFF_0000) as u32;
+                    let e = Entry { tile_id: id, run_length: run, length: 0xFFF0_0000 + (i as u32 % 0xFFFF), offset: (1u64 << 62) - 1 - (rng.next() % (1 << 40)) };
+                    id += u64::from(run) + (1 << 32) + rng.next() % (1 << 33);
+                    e
+                })
+                .collect()
+        } else {
+            (0..n).map(|i| Entry { tile_id: 9 + i + (i / 1000), run_length: 1, length: 64, offset: 64 * i }).collect()
+        };
         let dir = Directory::from(e.clone());
         let mut obs = Vec::new();
         for &c in &all {
+            if wide && c == 3 && tier != "thorough" {
+                continue;
+            }
             for mode in ["sync", "async"] {
                 let comp = comp_of(c);
                 let d = dir.clone();
